@@ -7,9 +7,10 @@ import traceback
 
 ROOT = os.path.dirname(os.path.dirname(os.path.abspath(__file__)))
 BUILD = os.path.join(ROOT, "build")
-EVIDENCE = os.path.join(ROOT, "evidence")
 FINDINGS = os.path.join(ROOT, "known_findings.json")
 REPO = os.environ.get("VERIF_REPO", "/repo")
+# evidence/ describes /repo's working tree only; a run against a scratch copy (seeded changes, trial repairs) writes elsewhere
+EVIDENCE = os.path.join(ROOT, "evidence") if os.path.realpath(REPO) == "/repo" else os.path.join(BUILD, "evidence-scratch")
 MAX_REPORTED = 5     # VIOLATION lines printed per site; all are counted
 
 
